@@ -9,6 +9,7 @@ import (
 	"github.com/LemoFoundationLtd/lemochain-core/common/rlp"
 	"github.com/LemoFoundationLtd/lemochain-core/common/verifhook"
 	"github.com/LemoFoundationLtd/lemochain-core/store/leveldb"
+	"math/big"
 	"os"
 	"path/filepath"
 	"strconv"
@@ -91,7 +92,13 @@ func NewChainDataBase(home string) *ChainDatabase {
 			}
 			if result, ok := accData.Candidate.Profile[types.CandidateKeyIsCandidate]; ok {
 				if result == types.IsCandidateNode {
+					// the account holds the votes as of the stable block. The candidate file may lag behind it
+					if accData.Candidate.Votes != nil {
+						val.Total = new(big.Int).Set(accData.Candidate.Votes)
+					}
 					newCandidate = append(newCandidate, val)
+					// the index of all candidates is needed whenever the top list has to be ranked again from scratch
+					db.LastConfirm.CandidateTrieDB.Set(val)
 				}
 			}
 		}
